@@ -769,6 +769,10 @@ PEPS_OPTS = {
     "ungrouped": dict(max_bond=64, cutoff=0.0, autogroup=False),
     "yfirst": dict(max_bond=64, cutoff=0.0, first_contract="y"),
     "xfirst_dense": dict(max_bond=64, cutoff=0.0, first_contract="x", second_dense=True),
+    # norms stripped into the stored exponent while the boundaries are contracted (value form, then redistributing form)
+    "equalize1": dict(max_bond=64, cutoff=0.0, equalize_norms=1.0),
+    "equalize1_y": dict(max_bond=64, cutoff=0.0, equalize_norms=1.0, first_contract="y"),
+    "equalizeT": dict(max_bond=64, cutoff=0.0, equalize_norms=True),
 }
 
 
@@ -858,9 +862,9 @@ def _peps32_params():
     for shape, pat in (((3, 2), "col0"), ((3, 2), "vert"), ((2, 3), "row0")):
         for w in [((0, 0), (0, 1)), ((1, 0), (2, 0)) if shape == (3, 2) else ((0, 1), (0, 2)), ((shape[0] - 1, shape[1] - 1),),
                   ((0, 0), (1, 1)), ((2, 0), (0, 0)) if shape == (3, 2) else ((0, 2), (0, 0))]:
-            for o in ("default", "flat", "fullbond"):
+            for o in ("default", "flat", "fullbond", "equalize1", "equalize1_y", "equalizeT"):
                 quick = pat == "col0" and w in [((0, 0), (0, 1)), ((2, 1),)] and o in ("default", "flat")
-                mand = not (pat == "vert" and o == "default")
+                mand = not (pat == "vert" and o == "default") and not o.startswith("equalize")
                 out.append({"shape": shape, "pattern": pat, "where": w, "opts": o, "_tiers": _Q if quick else _T, "_mandatory": mand})
     return out
 
@@ -897,6 +901,34 @@ def peps_boundary_routes(mk, shape, pattern, where, opts):
               p.compute_local_expectation({key: G}, normalized=True, **kw), e_w / nrm2)
         nkw = {k: v for k, v in PEPS_OPTS[opts].items() if k in ("max_bond", "cutoff", "canonize", "mode", "layer_tags")}
         mk.eq(f"compute_norm({opts}) == <psi|psi>", p.compute_norm(**nkw), nrm2)
+
+
+@obligation(PROP, params=[{"shape": s} for s in ((3, 2), (2, 3), (3, 3))], numeric=True)
+def peps_equalize_norms_numeric(mk, shape):
+    """[numeric-only supplement] the boundary routes with equalize_norms (False / value / True) x first_contract x
+    second_dense on complex random PEPS: the symbolic cells of peps_boundary_routes[opts=equalize*] run in the
+    thorough tier (their certificates are usually out of reach), this cross-run keeps the option grid in the quick tier"""
+    if mk.sym:
+        mk.same("numeric-only obligation", True, True)
+        return
+    Lx, Ly = shape
+    p = peps_sym(mk, Lx, Ly, kind="cplx", bond=lambda a, b: 2)
+    sites = list(p.gen_site_coos())
+    dims = (2,) * len(sites)
+    psi = dense_vec_2d(p, sites)
+    for where in (((0, 0),), ((Lx - 1, Ly - 1),), ((0, 0), (0, 1)), ((1, 0), (0, 0))):
+        pos = tuple(sites.index(s) for s in where)
+        G = op_for(mk, "O%d" % len(where), dims, pos, kind="cplx")
+        e_w = expect_ref(psi, G, pos, dims)
+        key = where[0] if len(where) == 1 else where
+        for en in (False, 1.0, True):
+            for first in ("x", "y"):
+                for sd in (None, True, False):
+                    kw = dict(max_bond=64, cutoff=0.0, equalize_norms=en, first_contract=first, second_dense=sd)
+                    if len(where) == 2 and where[0] > where[1]:
+                        kw["plaquette_map"] = explicit_plaquette_map([key], True, Lx, Ly)
+                    mk.eq(f"[numeric-only] compute_local_expectation({{{key}: G}}, normalized=False, equalize_norms={en}, first_contract={first}, second_dense={sd})",
+                          p.compute_local_expectation({key: G}, normalized=False, **kw), e_w, tol=1e-6)
 
 
 # ---------------------------------------------------------------------- operator networks
@@ -1009,6 +1041,14 @@ def compressed_contraction_routes(mk, geom, where):
              tn.local_expectation(G, where, **cap), e_w, nrm2)
     mk.eq(f"local_expectation(G, {where}, symmetrized=True, normalized=False)",
           tn.local_expectation(G, where, symmetrized=True, normalized=False, **cap), e_w)
+    # the cluster routes hand over to the compressed contraction as soon as a bond cap is given
+    for kw in (dict(), dict(gauges=None)):
+        mk.eq(f"local_expectation_cluster(G, {where}, max_distance={n}, max_bond=256, normalized=False{', gauges=None' if kw else ''})",
+              tn.local_expectation_cluster(G, where, max_distance=n, normalized=False, **cap, **kw), e_w)
+    eq_ratio(mk, f"local_expectation_cluster(G, {where}, max_distance={n}, max_bond=256) normalized",
+             tn.local_expectation_cluster(G, where, max_distance=n, **cap), e_w, nrm2)
+    mk.eq(f"compute_local_expectation_cluster(one term, max_bond=256, normalized=False)",
+          tn.compute_local_expectation_cluster({where: G}, max_distance=n, normalized=False, **cap), e_w)
     rho = tn.partial_trace(where, normalized=False, **cap)
     mk.eq(f"partial_trace({where}, normalized=False) == dense reduced state", rho, rho_w)
     herm_goal(mk, f"partial_trace({where}) Hermitian", rho)
